@@ -442,6 +442,8 @@ class Prelude:
             z3.ForAll([k], z3.And(has(m, k) == has(m2, k), z3.Implies(has(m, k), get(m, k) == get(m2, k))),
                       patterns=[has(m, k), has(m2, k), get(m, k), get(m2, k)])),
             patterns=[mapeq(m, m2)]))
+        # a dict is its contents (value semantics): extensionally equal maps are the same value
+        A(f"{n}.ext_eq", z3.ForAll([m, m2], z3.Implies(mapeq(m, m2), m == m2), patterns=[mapeq(m, m2)]))
 
     # --------------------------------------------------------------- records
     def field(self, rec: RecTy, fname: str) -> tuple[str, z3.SortRef]:
